@@ -11,7 +11,11 @@ RULE = ("clean motif networks (2-/3-cliques from the real generator under script
         "after every change of the working graph the edge set with attributes and the DrawSet list are compared "
         "with the model; c11_check (the decidable invariant) judges EVERY intermediate graph and the input object "
         "before/after. Method level: get_all_edges, is_edge_choice_suitable, swap_condition (decision, numerator, "
-        "denominator as exact rationals, proposal edges) on enumerated corner pairs. Non-trivial = run with >= 1 "
+        "denominator as exact rationals, proposal edges) on enumerated corner pairs. MIXED CORNERS: 24 method cases + 24 "
+        "runs (200 + 200 thorough) on diamond networks (12-26 vertices, 2-4 topology names in varying order) whose "
+        "position-0 / position-2 corners carry d-outer AND d-inner edges, with GRID targets (support = all pairings of "
+        "the keys jd(v) - e_i over every slot i of a topology sharing a corner, so a key built with the wrong slot is "
+        "present instead of raising the KeyError that rejects the swap), queries aimed at pairs of mixed corners. Non-trivial = run with >= 1 "
         "accepted swap / method case with >= 1 suitable accepted pair; distinct by network + oracle stream")
 EXHAUSTIVE = {"quick": False, "thorough": False}
 EXPLANATION = ("general theorems (all clean networks, all targets, all oracle streams, any number of swaps) in "
